@@ -2,6 +2,7 @@ import RedisVerif.Driver.Codec
 import RedisVerif.Model.GrammarTable
 import RedisVerif.Model.LuaConv
 import RedisVerif.Model.LuaScript
+import RedisVerif.Model.LuaNum
 import RedisVerif.Model.GrammarGen
 import RedisVerif.Model.GrammarElem
 import RedisVerif.Lemmas.GrammarErrs
@@ -23,6 +24,7 @@ import RedisVerif.Props.C16
     L2R <lua>         → `lua_to_resp`, rendered as a RESP value
     RT <resp>         → `lua_to_resp (resp_to_lua_value r)`
     N2I <16 hex digits> → `lua_to_resp` of a Lua float with this bit pattern (`n as i64`): :<int>
+    LF <16 hex digits> → the bytes a Lua float with this bit pattern becomes as a redis.call argument (`f64::to_string`): $<hex>
     LA <lua>          → the bytes a redis.call argument becomes (`parse_multivalue_to_bytes`): $<hex> | refused
     TN                → the command names of `table`, sorted (compared with the match arms of the source)
     LT <i>            → row i of the translator's error alphabet `C16.luaErrTable` (name, arity text,
@@ -435,6 +437,11 @@ def step (line : String) : String :=
     if t.length != 16 then "bad-op" else
     match t.toList.mapM Driver.hexVal with
     | some ds => s!":{f64ToI64 (ds.foldl (fun a d => a * 16 + d) 0)}"
+    | none => "bad-op"
+  | ["LF", t] =>
+    if t.length != 16 then "bad-op" else
+    match t.toList.mapM Driver.hexVal with
+    | some ds => "$" ++ hexOfBytes (RedisVerif.LuaNum.fmtF64 (ds.foldl (fun a d => a * 16 + d) 0))
     | none => "bad-op"
   | ["TN"] =>
     let names := (table.map Entry.name).map strOf
